@@ -3,4 +3,4 @@ From LP Require Import Num C06_Model.
 Extraction Language OCaml.
 Extraction "C06_m.ml" fact_init factorial_step factorial_run binomial_step binomial gammaln gamma
   find_epsilon asr integrate panel_loop gammaq_int gammap_ser gammaq_cf gammaq gammap
-  upper_incomplete_gamma lower_incomplete_gamma inv_gammap inv_gammaq Z.of_nat Z.to_nat.
+  upper_incomplete_gamma lower_incomplete_gamma inv_gammap inv_gammaq call_step call_fresh call_run Z.of_nat Z.to_nat.
